@@ -33,7 +33,7 @@ SIG = {
     'pt': {'sort': 'int', 'uf': True},
     'on_curve': {'sort': 'bool', 'uf': True},
     'secret_scalar': {'sort': 'int', 'uf': True, 'facts': ['result >= 1']},
-    'verify_ok': 'bool', 'sign': 'bytes', 'pk_ok': 'bool', 'dom': 'bytes', 'H': 'bytes', 'group_eq': 'bool',
+    'verify_ok': 'bool', 'sign': 'bytes', 'sign_r': 'int', 'sign_R': 'bytes', 'sign_S': 'int', 'pk_ok': 'bool', 'dom': 'bytes', 'H': 'bytes', 'group_eq': 'bool',
 }
 
 
@@ -188,16 +188,27 @@ def verify_ok(c, B, A, ctx, phflag, PHM, sig):
 
 # ---------------------------------------------------------------- signing, 5.1.6 / 5.2.6
 
-def sign(c, B, s, pfx, A, ctx, phflag, PHM):
-    """1. (s, prefix) from the private key   2. r = H(dom || prefix || PH(M)) mod L   3. R = ENC([r]B)
-    4. k = H(dom || R || A || PH(M)) mod L   5. S = (r + k * s) mod L   6. R || little-endian b/8-octet encoding of S"""
+def sign_r(c, pfx, ctx, phflag, PHM):
+    """step 2: r = H(dom2(F, C) || prefix || PH(M)) as a little-endian integer, reduced mod L"""
+    return le(H(c, dom(c, phflag, ctx) + pfx + PHM)) % order(c)
+
+
+def sign_R(c, B, pfx, ctx, phflag, PHM):
+    """step 3: R = ENC([r]B)"""
+    return enc(c, fips186.pmul(B, sign_r(c, pfx, ctx, phflag, PHM)))
+
+
+def sign_S(c, B, s, pfx, A, ctx, phflag, PHM):
+    """step 4: k = H(dom2(F, C) || R || A || PH(M)) mod L;  step 5: S = (r + k * s) mod L"""
     L = order(c)
-    d = dom(c, phflag, ctx)
-    r = le(H(c, d + pfx + PHM)) % L
-    Renc = enc(c, fips186.pmul(B, r))
-    k = le(H(c, d + Renc + enc(c, A) + PHM)) % L
-    S = (r + k * s) % L
-    return Renc + i2le(S, blen(c))
+    k = le(H(c, dom(c, phflag, ctx) + sign_R(c, B, pfx, ctx, phflag, PHM) + enc(c, A) + PHM)) % L
+    return (sign_r(c, pfx, ctx, phflag, PHM) + k * s) % L
+
+
+def sign(c, B, s, pfx, A, ctx, phflag, PHM):
+    """5.1.6 / 5.2.6 with (s, prefix) from the private key (step 1) and the public key A = [s]B:
+    step 6: the signature is R || the little-endian b/8-octet encoding of S"""
+    return sign_R(c, B, pfx, ctx, phflag, PHM) + i2le(sign_S(c, B, s, pfx, A, ctx, phflag, PHM), blen(c))
 
 
 # ---------------------------------------------------------------- raw public keys, 5.1.5 / 5.2.5 (import_public_key)
